@@ -1,11 +1,11 @@
 SPECIFICATION Spec
 CONSTANTS
-  MaxHn = 4
+  MaxHn = 3
   Bug = ""
-  Alphabet <- AlphabetCore
-  MaxLen = 4
-  LH = 2
-  RH = 0
+  Alphabet <- AlphabetQuick
+  MaxLen = 5
+  LH = 1
+  RH = 1
   Devs <- NoDevs
 INVARIANTS MachineIsDefinition EveryGlueSearched SearchStaysBeforeNextGlue CollectInv WordsAreRuns
 CHECK_DEADLOCK FALSE
